@@ -16,7 +16,7 @@ import subprocess
 import common as C
 
 POOLS = {"quick": ["s"], "thorough": ["s", "n", "q"]}
-KEY = {"C12": "c12", "C13": "c13", "C14": "c14", "C07": "c07"}
+KEY = {"C12": "c12", "C13": "c13", "C14": "c14", "C07": "c07", "C15": "c15"}
 
 
 def _validate(out, prop, trace, tag):
@@ -80,6 +80,20 @@ def edited_queries(out, prop, tier, wd):
     n = _validate(out, prop, rec, "editq")
     os.unlink(rec)
     return n
+
+
+def c15_histories(out, prop, tier, wd):
+    """C15 over structural histories: random insertions / removals / attribute edits over a pool whose character data is
+    harmless node by node and dangerous in combination; after every successful state-changing call the document is
+    printed, re-parsed and both content signatures are logged; Trace_Dom.tla (c15) judges"""
+    nh, ln = {"quick": (30, 60), "thorough": (600, 100)}[tier]
+    rec = os.path.join(wd, "c15hist.trace")
+    so, crashed = C.run_harness_watched(["dom-record", "--out", rec, "--histories", str(nh), "--len", str(ln),
+                                         "--seed", str(C.seed()), "--c15"], rec, timeout=3000)
+    st = {"steps": 0, "queries": 0} if crashed else json.loads(so.strip().splitlines()[-1])
+    n = _validate(out, prop, rec, "c15hist")
+    os.unlink(rec)
+    return st["steps"], st["queries"]
 
 
 def _shards(args_base, n, wd, name):
